@@ -2,7 +2,7 @@
    lemmas (Proofs_guard, Proofs_once, Proofs_frame). Everything is stated from an ARBITRARY start
    state, so the start state of the harness ([init_state j0]) is a special case. *)
 From Coq Require Import List ZArith Bool Lia.
-From Verif Require Import C17.Model C17.Spec C17.Hoare C17.Proofs_once C17.Proofs_guard C17.Proofs_frame.
+From Verif Require Import C17.Model C17.Spec C17.Hoare C17.Proofs_ver C17.Proofs_once C17.Proofs_guard C17.Proofs_frame.
 Import ListNotations.
 Open Scope Z_scope.
 
@@ -20,44 +20,46 @@ Lemma step_job_env fx s o :
   match o with OReconcile _ => True | _ => sj (fst (step fx s o)) = sj s /\ snd (step fx s o) = [] end.
 Proof. destruct o; cbn; auto. Qed.
 
-Lemma step_consts fx s o : consts (sj (fst (step fx s o))) = consts (sj s).
+Lemma step_consts fx s o : W s -> consts (sj (fst (step fx s o))) = consts (sj s).
 Proof.
-  destruct o; try reflexivity. cbn [step]. apply (reconcile_frame fx s faults).
+  intros HW. destruct o; try reflexivity. cbn [step]. apply (reconcile_frame fx s faults HW).
 Qed.
 
-Lemma step_direct fx s o : direct (sj (fst (step fx s o))) = direct (sj s).
-Proof. pose proof (step_consts fx s o) as H. unfold consts in H. congruence. Qed.
+Lemma step_direct fx s o : W s -> direct (sj (fst (step fx s o))) = direct (sj s).
+Proof. intros HW. pose proof (step_consts fx s o HW) as H. unfold consts in H. congruence. Qed.
 
-Lemma step_terminal fx s o : terminal (phase (sj s)) = true ->
+Lemma step_terminal fx s o : W s -> terminal (phase (sj s)) = true ->
   sj (fst (step fx s o)) = sj s /\ snd (step fx s o) = [].
 Proof.
-  intros T. destruct o; try (cbn; auto; fail).
-  cbn [step]. rewrite (reconcile_terminal_eq fx s faults T). auto.
+  intros HW T. destruct o; try (cbn; auto; fail).
+  cbn [step]. destruct (reconcile_terminal_eq fx s faults HW T) as (A & _ & B). auto.
 Qed.
 
-Lemma step_timeout fx s o :
+Lemma step_timeout fx s o : W s ->
   timed_out (sj s) (sj (fst (step fx s o))) = true -> rref (sj s) = true -> sr (fst (step fx s o)) = None.
 Proof.
+  intros HW.
   destruct o; try (cbn [step fst sj]; intros T; apply timed_out_failed in T;
                    destruct T as (T & P & _); rewrite (terminal_failed _ P) in T; discriminate).
-  cbn [step]. apply (reconcile_frame fx s faults).
+  cbn [step]. apply (reconcile_frame fx s faults HW).
 Qed.
 
-Lemma step_guard fx s o x :
+Lemma step_guard fx s o x : W s ->
   direct (sj s) = false -> In x (snd (step fx s o)) -> is_evict x = true ->
   secured (est x) /\ (other_node (est x) \/ (fx = false /\ check_cached (sj s) = true)).
 Proof.
-  destruct o; try (cbn; tauto). cbn [step]. apply reconcile_guard.
+  intros HW. destruct o; try (cbn; tauto). cbn [step]. apply reconcile_guard; auto.
 Qed.
 
-Lemma step_once fx s o : no_faults_op o = true ->
+Lemma step_once fx s o : W s -> no_faults_op o = true ->
   let r := step fx s o in
   (nev (snd r) <= 1)%nat
   /\ (nev (snd r) = 1%nat -> ~ evd (sj s) /\ evd (sj (fst r)))
   /\ (evd (sj s) -> evd (sj (fst r))).
 Proof.
+  intros HW.
   destruct o; try (cbn; intros; repeat split; auto; try lia; intros; discriminate).
-  cbn [step no_faults_op]. intros NF. apply reconcile_once. unfold nofault.
+  cbn [step no_faults_op]. intros NF. apply reconcile_once; [exact HW|]. unfold nofault.
   apply negb_true_iff in NF. exact NF.
 Qed.
 
@@ -65,29 +67,29 @@ Qed.
 Lemma obs_length fx s ops : length (obs_from fx s ops) = length ops.
 Proof. unfold obs_from. revert s. induction ops as [|o t IH]; intros s; cbn; auto. Qed.
 
-Theorem trace_guard fx ops : forall s, direct (sj s) = false ->
+Theorem trace_guard fx ops : forall s, W s -> direct (sj s) = false ->
   forall o e, In o (obs_from fx s ops) -> In e (o_effs o) -> is_evict e = true ->
   secured (est e) /\ (fx = true -> other_node (est e)).
 Proof.
-  induction ops as [|op t IH]; intros s D o e I; [destruct I|].
+  induction ops as [|op t IH]; intros s HW D o e I; [destruct I|].
   rewrite obs_from_cons in I. destruct I as [<-|I].
-  - cbn [obs_of o_effs]. intros Ie Ev. destruct (step_guard fx s op e D Ie Ev) as (S & N).
+  - cbn [obs_of o_effs]. intros Ie Ev. destruct (step_guard fx s op e HW D Ie Ev) as (S & N).
     split; [exact S|]. intros F. destruct N as [N|(F' & _)]; [exact N|congruence].
-  - apply (IH (fst (step fx s op))); auto. rewrite step_direct. exact D.
+  - apply (IH (fst (step fx s op))); auto; [apply W_step; auto|]. rewrite step_direct; auto.
 Qed.
 
-Theorem trace_absorbing fx ops : forall s, absorbing (sj s) (obs_from fx s ops).
+Theorem trace_absorbing fx ops : forall s, W s -> absorbing (sj s) (obs_from fx s ops).
 Proof.
-  induction ops as [|op t IH]; intros s; [exact I|].
-  rewrite obs_from_cons. cbn [absorbing obs_of o_job o_effs]. split; [|apply IH].
-  intros T. apply step_terminal. exact T.
+  induction ops as [|op t IH]; intros s HW; [exact I|].
+  rewrite obs_from_cons. cbn [absorbing obs_of o_job o_effs]. split; [|apply IH; apply W_step; auto].
+  intros T. apply step_terminal; auto.
 Qed.
 
-Theorem trace_timeout fx ops : forall s, timeout_deletes (sj s) (obs_from fx s ops).
+Theorem trace_timeout fx ops : forall s, W s -> timeout_deletes (sj s) (obs_from fx s ops).
 Proof.
-  induction ops as [|op t IH]; intros s; [exact I|].
-  rewrite obs_from_cons. cbn [timeout_deletes obs_of o_job o_res]. split; [|apply IH].
-  intros T R. rewrite (step_timeout fx s op T R). reflexivity.
+  induction ops as [|op t IH]; intros s HW; [exact I|].
+  rewrite obs_from_cons. cbn [timeout_deletes obs_of o_job o_res]. split; [|apply IH; apply W_step; auto].
+  intros T R. rewrite (step_timeout fx s op HW T R). reflexivity.
 Qed.
 
 Theorem trace_frame fx ops : forall s, frame (sj s) ops (obs_from fx s ops).
@@ -101,15 +103,15 @@ Lemma count_evicts_cons o t : count_evicts (o :: t) = (nev (o_effs o) + count_ev
 Proof. unfold count_evicts, nev. cbn. rewrite filter_app, app_length. reflexivity. Qed.
 
 (* the count invariant: nothing recorded yet, or one eviction and the job remembers it *)
-Lemma trace_once_gen fx ops : forall s, no_faults ops = true ->
+Lemma trace_once_gen fx ops : forall s, W s -> no_faults ops = true ->
   (evd (sj s) -> count_evicts (obs_from fx s ops) = 0%nat)
   /\ (count_evicts (obs_from fx s ops) <= 1)%nat.
 Proof.
-  induction ops as [|op t IH]; intros s NF; [cbn; auto|].
+  induction ops as [|op t IH]; intros s HW NF; [cbn; auto|].
   cbn [no_faults forallb] in NF. apply andb_true_iff in NF. destruct NF as (NF1 & NF2).
   rewrite obs_from_cons, count_evicts_cons. cbn [obs_of o_effs].
-  destruct (step_once fx s op NF1) as (L & O & K).
-  destruct (IH (fst (step fx s op)) NF2) as (Z0 & L1).
+  destruct (step_once fx s op HW NF1) as (L & O & K).
+  destruct (IH (fst (step fx s op)) (W_step fx s op HW) NF2) as (Z0 & L1).
   split.
   - intros E. rewrite (Z0 (K E)).
     destruct (Nat.eq_dec (nev (snd (step fx s op))) 1) as [E1|E1]; [destruct (O E1) as (N & _); contradiction|lia].
@@ -117,32 +119,33 @@ Proof.
     destruct (O E1) as (_ & E'). rewrite (Z0 E'). lia.
 Qed.
 
-Theorem trace_once fx ops s : at_most_once ops (obs_from fx s ops).
-Proof. intros NF. apply (trace_once_gen fx ops s NF). Qed.
+Theorem trace_once fx ops s : W s -> at_most_once ops (obs_from fx s ops).
+Proof. intros HW NF. apply (trace_once_gen fx ops s HW NF). Qed.
 
 (* old variant: every same-node eviction happens in an operation that started with the check cached *)
-Theorem trace_shape_old ops : forall s, direct (sj s) = false ->
+Theorem trace_shape_old ops : forall s, W s -> direct (sj s) = false ->
   same_node_only_cached (sj s) (obs_from false s ops) = true.
 Proof.
-  induction ops as [|op t IH]; intros s D; [reflexivity|].
+  induction ops as [|op t IH]; intros s HW D; [reflexivity|].
   rewrite obs_from_cons. cbn [same_node_only_cached obs_of o_job]. apply andb_true_iff. split.
   - destruct (check_cached (sj s)) eqn:CC; [apply orb_true_r|]. rewrite orb_false_r.
     unfold evicts_other_node. cbn [o_effs]. apply forallb_forall. intros x Ix.
     destruct (is_evict x) eqn:Ev; [|reflexivity]. cbn.
-    destruct (step_guard false s op x D Ix Ev) as (_ & [N|(_ & C)]); [|congruence].
+    destruct (step_guard false s op x HW D Ix Ev) as (_ & [N|(_ & C)]); [|congruence].
     unfold other_node in N. unfold other_nodeb.
     destruct N as [N|N]; [rewrite N; reflexivity|].
     apply Z.eqb_neq in N. rewrite N. apply orb_true_r.
-  - apply IH. rewrite step_direct. exact D.
+  - apply IH; [apply W_step; auto|]. rewrite step_direct; auto.
 Qed.
 
 (* clause 8 can only fail at a step that started without a recorded ReservationRef *)
-Theorem trace_leak_shape fx ops : forall s mine,
+Theorem trace_leak_shape fx ops : forall s mine, W s ->
   leak_only_unrecorded mine (sj s) ops (obs_from fx s ops) = true.
 Proof.
-  induction ops as [|op t IH]; intros s mine; [reflexivity|].
-  rewrite obs_from_cons. cbn [leak_only_unrecorded obs_of o_job o_res]. apply andb_true_iff. split; [|apply IH].
+  induction ops as [|op t IH]; intros s mine HW; [reflexivity|].
+  rewrite obs_from_cons. cbn [leak_only_unrecorded obs_of o_job o_res]. apply andb_true_iff.
+  split; [|apply IH; apply W_step; auto].
   destruct (timed_out (sj s) (sj (fst (step fx s op)))) eqn:T; [|reflexivity].
   destruct (rref (sj s)) eqn:R; [|rewrite !orb_true_r; reflexivity].
-  rewrite (step_timeout fx s op T R). cbn. rewrite orb_true_r. reflexivity.
+  rewrite (step_timeout fx s op HW T R). cbn. rewrite orb_true_r. reflexivity.
 Qed.
